@@ -26,6 +26,44 @@ import (
 func init() {
 	c19Run = runC19
 	extraCmds["c19replay"] = c19Replay
+	extraCmds["c19alone"] = c19Alone
+}
+
+// c19Alone executes ONE call of a scenario as the only call of a fresh process and prints its observation.
+func c19Alone(args []string) {
+	var idx int
+	fmt.Sscan(args[1], &idx)
+	for _, sc := range c19Scenarios() {
+		if sc.name == args[0] {
+			bodies, finish := sc.threads(sc.setup())
+			func() {
+				defer func() { recover() }()
+				bodies[idx]()
+			}()
+			b, _ := json.Marshal(finish()[idx])
+			os.NewFile(3, "res").Write(b)
+			return
+		}
+	}
+}
+
+func aloneObservation(scName string, idx int) (string, bool) {
+	pr, pw, err := os.Pipe()
+	if err != nil {
+		return "", false
+	}
+	cmd := exec.Command(os.Args[0], "c19alone", scName, fmt.Sprint(idx))
+	cmd.ExtraFiles = []*os.File{pw}
+	if cmd.Start() != nil {
+		return "", false
+	}
+	pw.Close()
+	var out string
+	dec := json.NewDecoder(pr)
+	ok := dec.Decode(&out) == nil
+	pr.Close()
+	cmd.Wait()
+	return out, ok
 }
 
 // c19Replay re-executes one recorded schedule (without the explorer) and reports what it observes.
@@ -492,12 +530,18 @@ func racePass(c *Ctx) {
 }
 
 func exploreScenario(c *Ctx, sc scenario, bound int) {
-	// expected: every call executed alone (hooks silent: curSched == nil)
+	// expected: every call executed alone — as the only call of a fresh process (a call that is
+	// influenced by an EARLIER call of the same process is as wrong as one influenced by a concurrent call)
 	bodies, finish := sc.threads(sc.setup())
 	for _, b := range bodies {
 		b()
 	}
 	want := finish()
+	for i := range bodies {
+		if o, ok := aloneObservation(sc.name, i); ok {
+			want[i] = o
+		}
+	}
 	cap := 400000
 	nexec := 0
 	outcomes := map[string]bool{}
